@@ -23,3 +23,80 @@ def c12_call_single(inp, obligation):
         if inp.get("do_cache", True) and f.get_f_dict_size() != 1:
             bad.append("counter %d after evaluating one distinct point" % f.get_f_dict_size())
     return bool(bad), {"do_cache": inp.get("do_cache", True), "violations": bad}
+
+
+def _gauss_box(f, start, end, n=6):
+    """tensor Gauss-Legendre quadrature (exact for the polynomial degrees used here)"""
+    import itertools
+    import numpy as np
+    xs, ws = np.polynomial.legendre.leggauss(n)
+    total = 0.0
+    for idx in itertools.product(range(n), repeat=len(start)):
+        p, w = [], 1.0
+        for d, i in enumerate(idx):
+            h = 0.5 * (end[d] - start[d])
+            p.append(start[d] + h * (xs[i] + 1.0))
+            w *= ws[i] * h
+        total += w * float(np.asarray(f(tuple(p))).reshape(-1)[0])
+    return total
+
+
+@handler("C12.poly")
+def c12_poly(inp, obligation):
+    """polynomial test functions: the real eval against the stated polynomial, the real analytic integral against Gauss quadrature of the real eval"""
+    import numpy as np
+    import sparseSpACE.Function as F
+    d, k = int(inp["dim"]), inp.get("degree")
+    coeffs = [float(c) for c in inp["coeffs"]]
+    cls = getattr(F, inp["cls"])
+    f = cls(coeffs) if k is None else cls(coeffs, degree=int(k))
+    bad = []
+    if inp["method"] == "eval":
+        x = [float(v) for v in inp["x"]]
+        kk = 1 if k is None else int(k)
+        terms = [coeffs[i] * x[i] ** kk for i in range(d)]
+        want = float(np.sum(terms)) if inp["cls"] == "FunctionMultilinear" else float(np.prod(terms))
+        got = float(np.asarray(f.eval(tuple(x))).reshape(-1)[0])
+        if abs(got - want) > 1e-9 * max(1.0, abs(want)):
+            bad.append("eval(%r) = %r, stated polynomial = %r" % (x, got, want))
+    else:
+        s, e = [float(v) for v in inp["start"]], [float(v) for v in inp["end"]]
+        got = f.getAnalyticSolutionIntegral(s, e)
+        if got is None:
+            bad.append("analytic integral returned None")
+        else:
+            got = float(np.asarray(got).reshape(-1)[0])
+            want = _gauss_box(f.eval, s, e)
+            if abs(got - want) > 1e-9 * max(1.0, abs(want)):
+                bad.append("analytic integral over %r..%r = %r, Gauss quadrature of eval = %r" % (s, e, got, want))
+    return bool(bad), {"class": inp["cls"], "coeffs": coeffs, "violations": bad}
+
+
+@handler("C12.constant")
+def c12_constant(inp, obligation):
+    import numpy as np
+    from sparseSpACE.Function import ConstantValue
+    v = float(inp.get("value") or 1.0) or 1.0
+    bad = []
+    for s, e in [([0.0], [2.0]), ([0.0, 1.0], [2.0, 4.0]), ([-1.0, 0.0, 0.5], [1.0, 3.0, 1.0])]:
+        f = ConstantValue(v)
+        got = f.getAnalyticSolutionIntegral(s, e)
+        want = v * float(np.prod(np.array(e) - np.array(s)))
+        if got is None or abs(float(got) - want) > 1e-12 * max(1.0, abs(want)):
+            bad.append("ConstantValue(%r) over %r..%r: analytic integral %r, value * volume %r" % (v, s, e, got, want))
+    return bool(bad), {"violations": bad}
+
+
+@handler("C12.call_empty")
+def c12_call_empty(inp, obligation):
+    import numpy as np
+    from sparseSpACE.Function import GenzCornerPeak, FunctionCantileverBeamD
+    bad = []
+    for f in (GenzCornerPeak(coeffs=[1.0, 2.0]), FunctionCantileverBeamD()):
+        for batch in ([], np.empty((0, 2))):
+            got = f(batch)
+            if np.shape(got) != (0, f.output_length()):
+                bad.append("%s(%r) has shape %r, expected (0, %d)" % (type(f).__name__, batch, np.shape(got), f.output_length()))
+            if f.get_f_dict_size() != 0:
+                bad.append("counter %d after an empty batch" % f.get_f_dict_size())
+    return bool(bad), {"violations": bad}
